@@ -189,8 +189,18 @@ async def run_scenario(sc):
         if path == "exception":
             info["t0"] = now()
             raise Boom("boom")
-        info["t0"] = now() + 0.05
-        ctl["trigger"](0.05)
+        if sc.get("burst"):
+            # the cancellation arrives while messages the application has just sent are still in the outgoing queue
+            for i in range(sc["burst"]):
+                try:
+                    write.send_nowait({"jsonrpc": "2.0", "method": "notifications/burst", "params": {"i": i}})
+                except anyio.WouldBlock:
+                    break
+            info["t0"] = now()
+            ctl["trigger"](0.0)
+        else:
+            info["t0"] = now() + 0.05
+            ctl["trigger"](0.05)
         await anyio.sleep(30)
         raise Problem("the body was not cancelled")
 
@@ -200,8 +210,20 @@ async def run_scenario(sc):
                 async with stdio_client(params) as (r, w):
                     await body(r, w)
             elif entry == "StdioClient":
-                async with StdioClient(params) as c:
-                    r, w = c.get_streams()
+                c = StdioClient(params)
+                if sc.get("reuse"):
+                    # the same client OBJECT serves an earlier conversation first; the observations below are about the
+                    # second one (and the first child must be gone by then)
+                    async with c:
+                        r0, w0 = c.get_streams()
+                        with anyio.fail_after(10):
+                            while True:
+                                m0 = await r0.receive()
+                                if getattr(m0, "method", None) == "notifications/ready":
+                                    break
+                    info["first_child_state"] = pstate(PROCS[-1].pid) if len(PROCS) > n_procs0 else "never-started"
+                async with c as c2:
+                    r, w = c2.get_streams()
                     await body(r, w)
             else:
                 async with StdioTransport(params) as t:
